@@ -48,12 +48,17 @@ RULE = (
     "degenerate spectra (rank_def; thorough: flat_pair, clustered, near_equal_var), scales 1e-8/1e8 (single-set), field sizes 6|4 and 4|6 (only the smaller field is "
     "restorable), thorough: n=12, n=6 with 6 features (p > n-1) over the whole alpha grid, provenance {refitted, deferred-then-computed, deserialized} x structure layer. "
     "Score arrays of clause (ii): sample coordinates {new longer disjoint, one length-one sample dimension} everywhere, {training, short unsorted} and one-sided cross-set calls "
-    "on the algebra layer (thorough: everywhere). Mode selections of a score array {subset list, reordered subset, [k], scalar .sel(mode=k), scalar .isel(mode=i)} x normalized "
+    "on the algebra layer (thorough: everywhere). Ill-scaled multi-variable fields {Dataset, list} x std ratio {1e2, 1e4, 1e6} x CPCCA alpha {(0,0), (.5,.5), (0,.5)} x PCA "
+    "(plus CCA, ComplexCPCCA at 1e4; EOF, ComplexEOF at 1e4, 1e6), and the catalogue's extreme scales 1e-8 / 1e8 for CPCCA alpha {0,.5,1} x PCA. Mode selections of a score array {subset list, reordered subset, [k], scalar .sel(mode=k), scalar .isel(mode=i)} x normalized "
     "{False, True} (single-set; cross-set inverse_transform has no switch) on the algebra layer and on the all-flags-on corner of every other sub-product. A case is non-trivial when every clause applicable to it compared non-empty arrays and none fired"
 )
 ASSUMPTIONS = [
     "the numeric catalogue (fixed spectra/shapes/scales, orthogonal factors drawn from VERIF_SEED) stands for 'all inputs'",
-    "solver='full' everywhere (solver choice is C15's subject); cross-set fields at scale 1 (scaling laws: C08/C16)",
+    "solver='full' everywhere (solver choice is C15's subject); cross-set fields at scale 1 except the stated extreme-scale sub-product "
+    "(CPCCA x alpha {0,.5,1} x PCA at the catalogue scales 1e-8 and 1e8)",
+    "reconstruction is judged per variable (Dataset variable / list item), relative to the largest anomaly of THAT variable, so that a small-amplitude variable of an "
+    "ill-scaled field cannot hide behind a large one; ill-scaled fields divide variable number i by ratio**i, ratio in {1e2, 1e4, 1e6} (thorough: also 1e3, 1e5), un-standardised; "
+    "ratio 1e8 is not enumerated (the covariance of such a field has condition > 1/eps in float64)",
     "cross-set 'feature count' of a field is its number of valid (not fully-NaN) features; a fully-NaN sample is placed at the same label in both fields (C06 owns the other case)",
     "round trip on a fractionally whitened (alpha<1) cross-set model is demanded only for modes up to the numerical rank of the two fields "
     "(beyond it a score cannot be represented in data space: the whitener is a pseudo-inverse there)",
@@ -117,7 +122,9 @@ class Field:
     pass
 
 
-def build_field(cont, size, n, ns, spec, scale, cplx, seed, nan, salt, with_weights, chunk=False):
+def build_field(cont, size, n, ns, spec, scale, cplx, seed, nan, salt, with_weights, chunk=False, ratio=1.0):
+    """`ratio` > 1 makes a multi-variable field ILL-SCALED: variable number i (Dataset variable / list item, in order)
+    is divided by ratio**i, like temperature in K next to specific humidity in kg/kg."""
     import xarray as xr
 
     f = Field()
@@ -136,7 +143,7 @@ def build_field(cont, size, n, ns, spec, scale, cplx, seed, nan, salt, with_weig
         das, ws = {}, {}
         for name, grid, var in specs:
             p = int(np.prod(grid))
-            M = D.make_matrix(n, p, spec, scale, cplx, seed, salt=salt * 16 + pi)
+            M = D.make_matrix(n, p, spec, scale, cplx, seed, salt=salt * 16 + pi) * float(ratio) ** (-pi)
             if nan == "feature" and pi == 0:
                 M[:, 1 if p > 1 else 0] = np.nan
             if nan == "sample":
@@ -151,7 +158,9 @@ def build_field(cont, size, n, ns, spec, scale, cplx, seed, nan, salt, with_weig
             if chunk:
                 da = da.chunk({"time": 2})  # sample-wise chunks only: dask's svd refuses arrays chunked along both axes (DESIGN 3.4)
             das[name], ws[name] = da, w
-            f.pieces.append(dict(path=(ii if cont.startswith("list") else None, var), M=M, fdims=fdims, fcoords=fcoords, p=p))
+            anom = np.abs(M - np.nanmean(M, axis=0, keepdims=True))
+            f.pieces.append(dict(path=(ii if cont.startswith("list") else None, var), M=M, fdims=fdims, fcoords=fcoords, p=p,
+                                 ascale=max(float(np.nanmax(anom)), 1e-300)))
             pi += 1
         if it[0] == "da":
             items.append(das[it[1]])
@@ -366,6 +375,39 @@ def cases(tier, seed):
             for pca in (False, True):
                 for cf in (CFLAGS2[:1] if quick else CFLAGS2):
                     _cross(out, model, a, pca, cf, "DA", 1, "none", spec=spec, sv=sv)
+    # ill-scaled multi-variable fields (un-standardised Dataset / list whose variables differ in magnitude by `ratio`,
+    # e.g. K next to kg/kg): every variable must come back, judged in units of its own variability
+    def _ill(lst, ratio):
+        lst[-1]["ratio"] = float(ratio)
+
+    for ratio in ((1e2, 1e4, 1e6) if quick else (1e2, 1e3, 1e4, 1e5, 1e6)):
+        for alpha in ((0.0, 0.0), (0.5, 0.5), (0.0, 0.5)) + (() if quick else ((1.0, 1.0), (0.25, 1.0))):
+            for pca in (False, True):
+                for cont in (["DS", "list"] if quick else ["DS", "list", "list_ds"]):
+                    wide = (not quick) and ratio in (1e4, 1e6) and alpha[0] < 1.0 and alpha != (0.25, 1.0)
+                    for (ns, nan) in (NSNAN3 if wide else [(1, "none")]):
+                        for cf in ([CFLAGS2[0], (False, True, True)] if wide and cont == "DS" and nan == "none" else [CFLAGS2[0]]):
+                            _cross(out, "CPCCA", alpha, pca, cf, cont, ns, nan, sv=sv, msel=False)
+                            _ill(out, ratio)
+        for (model, alpha) in (("ComplexCPCCA", (0.5, 0.5)), ("CCA", None)):
+            if quick and ratio != 1e4:
+                continue
+            for pca in (False, True):
+                _cross(out, model, _alpha_of(model, alpha), pca, CFLAGS2[0], "DS", 1, "none", sv=sv, msel=False)
+                _ill(out, ratio)
+        if ratio >= 1e4 and ratio in (1e4, 1e6):
+            for (model, cplx, pad) in SINGLE[:2] if quick else SINGLE:
+                for cont in ("DS", "list"):
+                    for fl in ([FLAGS4[0]] if quick else [FLAGS4[0], FLAGS4[2], (True, False, True, True)]):
+                        _single(out, model, cplx, pad, cont, 1, "none", fl, sv=sv, msel=False)
+                        _ill(out, ratio)
+    # data in very small / very large units (the catalogue's extreme scales) under fractional whitening
+    for scale in (1e-8, 1e8):
+        for alpha in ((0.0, 0.0), (0.5, 0.5), (1.0, 1.0)) + (() if quick else ((0.25, 1.0),)):
+            for pca in (False, True):
+                for cont in (["DA"] if quick else ["DA", "DS"]):
+                    _cross(out, "CPCCA", alpha, pca, CFLAGS2[0], cont, 1, "none", sv=sv, msel=False)
+                    out[-1]["scale"] = float(scale)
     if not quick:
         # more features than samples in one field (n = 6 -> 5 centred degrees of freedom, 6 features)
         for alpha in grid:
@@ -412,7 +454,7 @@ def cases(tier, seed):
             if len(c["sv"]) > len(first["sv"]):
                 first["sv"] = c["sv"]
     order = {"DA": 0, "DS": 1, "list": 2, "list_ds": 3}
-    uniq.sort(key=lambda c: (c["prov"] != "fresh", c["family"] != "single", c["nan"] != "none", c["ns"], order[c["cont"]], c["spec"] != "geometric", c["scale"] != 1.0))
+    uniq.sort(key=lambda c: (c["prov"] != "fresh", c["family"] != "single", c["nan"] != "none", c["ns"], order[c["cont"]], c["spec"] != "geometric", c["scale"] != 1.0, c.get("ratio", 1.0)))
     return uniq
 
 
@@ -559,15 +601,16 @@ def check_reconstruction(cx, f, res, what, feats, tol=TOL):
             continue
         want = pc["M"][valid_rows(f, True)]
         mask = np.isfinite(want)
-        e = relerr(got, want, mask, scale=f.scale)
+        # judged per variable, in units of that variable's own variability (a field may mix magnitudes)
+        e = relerr(got, want, mask, scale=pc["ascale"])
         cx.err("reconstruction", e)
         n_cmp += int(mask.sum())
         if not e <= tol:
             # classify: exactly the sample mean is missing?
             mu = np.nanmean(pc["M"], axis=0, keepdims=True)
-            e_mu = relerr(got + mu, want, mask, scale=f.scale)
+            e_mu = relerr(got + mu, want, mask, scale=pc["ascale"])
             lost = "mean" if e_mu <= tol else "other"
-            cx.bad("reconstruction", "%s, piece %s: max |reconstructed - fitted| / max|fitted| = %.3e (adding the sample mean back: %.3e)" % (what, pc["path"], e, e_mu),
+            cx.bad("reconstruction", "%s, piece %s: max |reconstructed - fitted| / max|own anomalies of that variable| = %.3e (adding the sample mean back: %.3e)" % (what, pc["path"], e, e_mu),
                    lost=lost, **feats)
     return n_cmp
 
@@ -675,7 +718,7 @@ def _prov_feat(case):
 
 def run_single(case, seed):
     chunk = case["prov"] == "deferred"
-    f = build_field(case["cont"], "S", case["n"], case["ns"], case["spec"], case["scale"], case["cplx"], seed, case["nan"], 1, case["weights"], chunk=chunk)
+    f = build_field(case["cont"], "S", case["n"], case["ns"], case["spec"], case["scale"], case["cplx"], seed, case["nan"], 1, case["weights"], chunk=chunk, ratio=case.get("ratio", 1.0))
     k_all = min(f.n_valid, f.P_valid)
     full = case["n_modes"] == "all"
     k = k_all if full else int(case["n_modes"])
@@ -884,14 +927,18 @@ def run_cross(case, seed):
     chunk = case["prov"] == "deferred"
     sx, sy = case["sizes"]
     wts = case["weights"]
-    fx = build_field(case["cont"], sx, case["n"], case["ns"], case["spec"], 1.0, case["cplx"], seed, case["nan"], 2, wts[0], chunk=chunk)
-    fy = build_field(case["cont"], sy, case["n"], case["ns"], case["spec"], 1.0, case["cplx"], seed, case["nan"], 3, wts[1], chunk=chunk)
+    fx = build_field(case["cont"], sx, case["n"], case["ns"], case["spec"], case["scale"], case["cplx"], seed, case["nan"], 2, wts[0], chunk=chunk, ratio=case.get("ratio", 1.0))
+    fy = build_field(case["cont"], sy, case["n"], case["ns"], case["spec"], case["scale"], case["cplx"], seed, case["nan"], 3, wts[1], chunk=chunk, ratio=case.get("ratio", 1.0))
     k_all = min(fx.P_valid, fy.P_valid)
     full = case["n_modes"] == "all"
     k = k_all if full else int(case["n_modes"])
     cx = Ctx(case, _base_feats(case, [fx, fy]))
     alpha = case["alpha"]
     feats0 = dict(alpha_lt_1=bool(min(alpha) < 1.0), use_pca=bool(case["pca"]))
+    if case["scale"] < 1e-4:
+        feats0["tiny_units"] = True
+    if case.get("ratio", 1.0) > 1.0:
+        feats0["ill_scaled"] = True
     sfeats = dict(dataset_input=bool(fx.has_dataset or fy.has_dataset))
     dim = list(fx.sdims) if fx.ns > 1 else "time"
 
